@@ -11,6 +11,10 @@ CLAIMS = {
          "Proved for all byte strings: soundness of the prefix test w.r.t. whole components, invariance under trailing separators on the root, completeness on canonical spellings, the exact deleted set, and the history dependence (induction over any list of runs). The model is hand-written; every run compares it with the rebuilt code on all pairs over {/,a,b} up to length 5 and on random (expectedOutputs, roots) histories through `llbuild buildsystem build`, and judges the implementation against a component-prefix oracle.",
          "Trusted: Coq kernel (+vm_compute), the hand-written model (tied by correspondence only), leaf_driver.cpp, extraction via ExtrOcamlBasic, the Python comparator. POSIX separators only. FileSystem::remove itself is exercised, not modelled.",
          "DESIGN.md 4/C14"),
+ "C15": ("Coq round-trip and injectivity theorems over transliterated models of BinaryCoding/StringList/FileInfo/BuildValue/BuildKey; tag tables probed exhaustively from the code into Gen_Codec.v and re-checked; differential execution model vs code on generated values/keys",
+         "Proved for all values and keys meeting the stated well-formedness (64-bit fields, 1..2^32-1 outputs, NUL-free list items, names < 2^32 bytes): decode(encode x) = x, encode injective, first byte separates kinds, [] vs [\"\"] differ. Tag distinctness and the kind<->char bijection are proved over tables regenerated from the rebuilt code on every run. Every run compares model and code byte for byte on thousands of generated values/keys built through every factory, checks copy/move/re-decode canonicity, round trip and injectivity on the implementation itself.",
+         "Trusted: Coq kernel (+vm_compute), hand-written model (tied by correspondence only), leaf_driver.cpp, extraction, comparator. Little-endian host. Decoders are only fed encoder output (the C++ decoder does not bounds-check; outside the property).",
+         "DESIGN.md 4/C15"),
 }
 NOT_YET = "check not built yet (work proceeds in the order of DESIGN.md section 7); not claimed until a kernel-checked theorem tied to the code by a running correspondence exists"
 
